@@ -714,7 +714,8 @@ func GetAPSource(val *fastjson.Value) Source {
 	}
 
 	if contBytes := val.Get("source", "content").GetStringBytes(); len(contBytes) > 0 {
-		s.Content.UnmarshalJSON(contBytes)
+		// NOTE(marius): the parser has already decoded the JSON string, the text is taken as it is
+		s.Content = NaturalLanguageValues{{Ref: NilLangRef, Value: append(Content{}, contBytes...)}}
 	} else if val.Exists("source", "contentMap") {
 		s.Content = JSONGetNaturalLanguageField(val.Get("source"), "contentMap")
 	}
